@@ -266,6 +266,43 @@ def stream(ck):
                     if r2[0] == "agg":
                         item = cl.agg_at(r2[1], r2[2])["fields"][0]
                         ck.verdict(T.resolves_to_call(cl, item, [p0.bb]), "6", "T6-provenance", cl, "item=poll_next-payload", "the item handed to the callback is the one poll_next produced", "the forwarded item is not poll_next's payload", site=cl.where(cb.bb))
+    # the poll loop is left on Pending or at the end of the stream. Any *other* exit (a per-dispatch item limit) leaves
+    # items behind that nobody will announce again: it must be remembered in a cell of the parent, and the parent must
+    # then wake / ping itself unconditionally before returning Ok (cf. C02.4 for the channel and the executor)
+    if inloop:
+        blk = inloop[0]
+        pend_edges = []
+        for sw in T.switches_on_expr(cl, lambda e: e[0] == "discr"):
+            e = cl.expr(cl.blocks[sw]["term"]["on"])
+            if any(r == ("call", p0.bb) and not p_ for r, p_ in cl.resolve(e[2])):
+                pend_edges += T.discr_edges(cl, sw, 1)  # std::task::Poll::Pending
+        early = []
+        for a, t, lab in T.loop_exit_edges(cl, blk):
+            if lab == "unwind" or cl.blocks[t]["term"]["t"] == "unreachable" or cl.is_cleanup(t):
+                continue
+            if (a, t) in pend_edges or T.reachable_only_via(cl, a, pend_edges, frm=[p0.to]) and False:
+                continue
+            # exits on the Pending edge, or after the end of the stream was seen, are the regular ones
+            if pend_edges and T.reachable_only_via(cl, t, pend_edges + none_edges + [(cb.bb, cb.to) for cb in none_cb], frm=[p0.to]):
+                continue
+            if end_sites and a in cl.reachable(end_sites, removed_blocks=[p0.bb]):
+                continue
+            early.append((a, t))
+        if early:
+            cells0 = common.ClosureCells(pe, cl)
+            stores_by_cell = {}
+            for i, c in cells0.set_stores():
+                stores_by_cell.setdefault(c, []).append(i)
+            okret_pe = [i for i, j, st in pe.statements() if st["s"] == "assign" and st["pl"]["l"] in T.ret_locals(pe) and st["rv"]["r"] == "agg" and st["rv"].get("variant") == "Ok" and not pe.is_cleanup(i)]
+            wakes = [c.bb for c in pe.calls() if not pe.is_cleanup(c.bb) and (c.name in ("ping", "wake", "wake_by_ref"))]
+            for a, t in early:
+                marked = [c for c, st_ in stores_by_cell.items() if a in st_ or T.t2_all_exits(cl, [t], st_) is None or any(cl.dominates(i, a) and i in blk for i in st_)]
+                ok_early = False
+                for c in marked:
+                    yes, no = cells0.set_edges(c)
+                    if yes and wakes and T.t2_all_exits(pe, [x for _, x in yes], wakes, exits=okret_pe or None) is None:
+                        ok_early = True
+                ck.verdict(ok_early, "6", "T2-all-exits", cl, "early-loop-exit=>self-wake", "the poll loop can be left before Pending (item limit); that is recorded and the source then always wakes itself before returning", "the poll loop can be left although the stream did not answer Pending (a per-dispatch limit) and the source does not unconditionally wake itself afterwards: the remaining items (or the final None) are never delivered unless something else wakes the source", site=cl.where(a))
     # parent: end of stream => Remove. The closure records the end in a cell of the parent (a bool, or an Option that
     # carries the final action); the parent returns Remove whenever that cell is set.
     cells = common.ClosureCells(pe, cl)
